@@ -124,6 +124,25 @@ BREAKING = [
     dict(id="b162", file=S, old="MICRO = SIPrefix('Micro', 'µ', -6)", new="MICRO = SIPrefix('Micro', 'µ', -5)", props=["C20"]),
     dict(id="b163", file=P, old="lb     Pound                     0.45359237·kg        0.45359237", new="lb     Pound                     0.45359237·kg        0.4535923", props=["C20"]),
     dict(id="b164", file=P, old="                 quantum=Fraction(1, 8)):", new="                 quantum=Fraction(1, 4)):", props=["C20"]),
+    # --- round-3 rules
+    dict(id="b200", file=Q, old="                    rem_amount -= quantum\n                    if rem_amount == 0:\n                        break\n",
+         new="                    rem_amount -= quantum\n", props=["C06"]),
+    dict(id="b201", file=M, old="                    validity = (dt.year, dt.month)\n            elif n_parts == 1:",
+         new="                    validity = (dt.month, dt.year)\n            elif n_parts == 1:", props=["C11"]),
+    dict(id="b202", file=M, old="                else:\n                    validity = dt.year\n", new="                else:\n                    validity = dt.month\n", props=["C11"]),
+    dict(id="b203", file=M, old="        self._type_of_validity = type(validity)\n", new="        self._type_of_validity = type(None) if isinstance(validity, int) else type(validity)\n", props=["C11"]),
+    dict(id="b204", file=CU, old="                _currency_dict[iso_code] = (iso_code, int(iso_num_code), name,\n                                            int(minor_units), [country])",
+         new="                _currency_dict[iso_code] = (iso_code, int(minor_units), name,\n                                            int(iso_num_code), [country])", props=["C08"]),
+    dict(id="b205", file=CU, old="        country, name, iso_code, iso_num_code, minor_units = descr", new="        name, country, iso_code, iso_num_code, minor_units = descr", props=["C08"]),
+    dict(id="b207", file=CU, old="        raise ValueError(f\"Unknown ISO 4217 code: '{iso_code}'.\")", new="        return (iso_code, 0, iso_code, 2, [])", props=["C08"]),
+    dict(id="b208", file=S, old="        return Decimal(10) ** self.exp  # type: ignore", new="        return 10 ** self.exp  # type: ignore", props=["C20"]),
+    dict(id="b209", file=Q, old="        assert unit is not None\n        return amnt, unit\n\n    def __pow__",
+         new="        assert unit is not None\n        _UNIT_OP_CACHE[(operator.pow, self)] = (amnt, unit)\n        return amnt, unit\n\n    def __pow__", props=["C17"]),
+    dict(id="b210", file=Q, old="        assert unit is not None\n        return amnt, unit\n\n    def __pow__",
+         new="        assert unit is not None\n        _UNIT_OP_CACHE[(operator.mul, self, exp)] = (amnt, unit)\n        return amnt, unit\n\n    def __pow__", props=["C17"]),
+    dict(id="b211", file=Q, old="            unit._equiv = ONE * (define_as.normalized().num_elem or ONE)",
+         new="            unit._equiv = ONE * (define_as.normalized().num_elem or ONE) * 2", props=["C01"]),
+    dict(id="b212", file=M, old="        if cls._converters[-1] is conv:\n            cls._converters.pop()", new="        if cls._converters[-1] is conv:\n            del cls._converters[0]", props=["C12"]),
 ]
 BREAKING = [b for b in BREAKING if b["props"]]
 
@@ -168,4 +187,11 @@ BENIGN = [
         (Q, "class Unit:\n    \"\"\"Unit of measure.", "@total_ordering\nclass Unit:\n    \"\"\"Unit of measure."),
         (Q, "from decimalfp import Decimal, ONE, ROUNDING, get_dflt_rounding_mode", "from functools import total_ordering\nfrom decimalfp import Decimal, ONE, ROUNDING, get_dflt_rounding_mode"),
     ], props=["C04", "C03", "C19"]),
+    # --- round-3 rules
+    dict(id="g200", file=M, old="        if cls._converters[-1] is conv:\n            cls._converters.pop()", new="        if cls._converters[-1] is conv:\n            del cls._converters[-1]", props=["C12", "C14"]),
+    dict(id="g201", file=Q, old="        assert unit is not None\n        return amnt, unit\n\n    def __pow__",
+         new="        assert unit is not None\n        return amnt, unit\n\n    @staticmethod\n    def drop_cached_results() -> None:\n        \"\"\"Forget memoised results.\"\"\"\n        _UNIT_OP_CACHE.clear()\n\n    def __pow__", props=["C17", "C02"]),
+    dict(id="g202", file=S, old="        return Decimal(10) ** self.exp  # type: ignore", new="        return Decimal(10 ** abs(self.exp)) ** (1 if self.exp >= 0 else -1)  # type: ignore", props=["C20"]),
+    dict(id="g204", file=CU, old="            else:\n                curr_entry[4].append(country)\n", new="            else:\n                _currency_dict[iso_code] = (iso_code, int(iso_num_code), name,\n                                            int(minor_units), curr_entry[4] + [country])\n", props=["C08"]),
+    dict(id="g203", file=CU, old="            else:\n                curr_entry[4].append(country)\n", new="            else:\n                curr_entry[4].extend([country])\n", props=["C08"]),
 ]
